@@ -37,8 +37,13 @@ GRAMMARS = [
     # the same rule name used as the operand of a skip-until pattern in two grammars
     'start = @{ "[" ~ (!stop ~ ANY)* ~ ">" }\nstop = { "]" }\n',
     'start = { "<" ~ body ~ ">" }\nbody = @{ (!stop ~ ANY)* }\nstop = { ">" | "]" }\n',
+    # the same rule name with different modifiers in different grammars, reached inside an atomic rule (whose hiding
+    # of inner pairs depends on the modifier of the rule that produced them)
+    'start = @{ item ~ ("," ~ item)* }\nitem = ${ word }\nword = { ASCII_ALPHA+ }\n',
+    'start = @{ item ~ ("," ~ item)* }\nitem = { word }\nword = { ASCII_ALPHA+ }\n',
+    'start = @{ item ~ ("," ~ item)* }\nitem = !{ word }\nword = @{ ASCII_ALPHA+ }\n',
 ]
-INPUTS = ["ab  \t cd", "ab  cd", "ab cd", "1,;2", "1,2;3", "abAB", "ABab", "", "a", "ab", "ff!", "xyz", "a1\n", "a b\n", "1, 2.5,3", "1,", "ab=ab", "ab=ac", "wordb", "word", "#c#x\n",
+INPUTS = ["ab,cd", "ab,cd,e", "ab  \t cd", "ab  cd", "ab cd", "1,;2", "1,2;3", "abAB", "ABab", "", "a", "ab", "ff!", "xyz", "a1\n", "a b\n", "1, 2.5,3", "1,", "ab=ab", "ab=ac", "wordb", "word", "#c#x\n",
           "é 5", "g", "A\r\n", "12", "ab ab a", "[ab]", "[ab>", "<ab]", "<ab>",
           "a = 1, b = 2", "a=1,b=2", "\x01token\x01a=1", "\x01token\x01a = 1", "\x01pair\x01a = 1", "\x01pair\x01a=1"]
 MODES = ("I", "O", "IG", "OG")
